@@ -1,5 +1,6 @@
 """C01 - lossless, ordered, exactly-once transfer between two peers (campaign K4)."""
 import random
+import os
 from core import *
 from gen import *
 from runner import Part, run_sharded
